@@ -135,6 +135,9 @@ def stackFiles (fs : List File) (sd : String) : Except String File := do
         if !(v.dims.contains sd) then
           vars := vars ++ [v]
         else
+          -- a variable that carries the stack dimension on two axes: the code concatenates along the first and lets numpy
+          -- stretch the result over the others (or fail); not specified here
+          if (v.dims.filter (· == sd)).length > 1 then throw "unspec"
           let k := v.dims.idxOf sd
           let mut parts : List (Arr Cell) := []
           for h in fs do
@@ -358,6 +361,118 @@ def Expr.eval (f : File) (shapeOf : Arr Cell) : Expr → Option (Arr Cell)
   | .bin op a b => match a.eval f shapeOf, b.eval f shapeOf with
     | some x, some y => some (zipCells (fun a b => op.cell false a b) x y)
     | _, _ => none
+
+/-! ### what a name of an expression means (`eval`, `pncexpr`)
+
+`PseudoNetCDFFile.eval` (core/_files.py) and `pncexpr` (core/_functions.py) run the user's expression with `exec` in a
+dictionary that they fill in several steps: the file's variables, helper functions, `from scipy.constants import *`,
+modules, the file's global attributes.  The dictionary is an association list with python's `d[k] = v` semantics; the
+order of the steps is the code's.  `Expr.evalIn` evaluates an expression by looking names up in such a namespace;
+PncProofs/C06.lean (with PncProofs/NamesLemmas.lean) proves that it is `Expr.eval` on the file's variables. -/
+
+/-- what a name is bound to -/
+inductive Bound where
+  | fileVar (v : Var)        -- one of the file's variables
+  | other (what : String)    -- a helper function, a physical constant, a module, a global attribute
+deriving Repr
+
+abbrev Env := List (String × Bound)
+
+def Env.get : Env → String → Option Bound
+  | [], _ => none
+  | p :: e, k => if p.1 == k then some p.2 else Env.get e k
+
+/-- `d[k] = b`: an existing key keeps its place and takes the new value, a new key goes last -/
+def Env.set : Env → String → Bound → Env
+  | [], k, b => [(k, b)]
+  | p :: e, k, b => if p.1 == k then (k, b) :: e else p :: Env.set e k b
+
+/-- `d.update(bs)` / a loop of assignments -/
+def Env.update (e : Env) (bs : List (String × Bound)) : Env := bs.foldl (fun e p => e.set p.1 p.2) e
+
+/-- `for k in ks: if k not in d: d[k] = ...` -/
+def Env.fill (e : Env) (bs : List (String × Bound)) : Env :=
+  bs.foldl (fun e p => if (e.get p.1).isSome then e else e.set p.1 p.2) e
+
+def fileBinds (f : File) : List (String × Bound) := f.vars.map (fun v => (v.name, Bound.fileVar v))
+
+def others (tag : String) (ns : List String) : List (String × Bound) := ns.map (fun n => (n, Bound.other tag))
+
+/-- names `pncexpr` binds to modules / the input file after everything else -/
+def pncexprReserved : List String := ["ifile", "infile", "np", "datetime"]
+
+/-- names `eval` binds after the variables and attributes -/
+def evalReserved : List String := ["np", "self", "outf"]
+
+/-- the namespace of `pncexpr(expr, ifile)`: the helper functions of `userfuncs`, the constants of scipy, then the file's
+variables (a variable named like a constant is the file's variable), the reserved names, and the global attributes whose
+names are still free -/
+def pncexprEnv (f : File) (helpers consts : List String) : Env :=
+  (((((Env.update [] (fileBinds f)).update (others "helper" helpers)).update (others "const" consts)).update
+      (fileBinds f)).update (others "module" pncexprReserved)).fill (others "attr" f.attrs)
+
+/-- the namespace of `f.eval(expr)`: the variables, the attributes whose names are free, then the reserved names -/
+def evalEnv (f : File) : Env :=
+  ((Env.update [] (fileBinds f)).fill (others "attr" f.attrs)).update (others "module" evalReserved)
+
+/-- value of an expression, names looked up in a namespace; a name bound to something that is not a variable of the file
+has no cell-wise value in this model -/
+def Expr.evalIn (env : Env) (shapeOf : Arr Cell) : Expr → Option (Arr Cell)
+  | .var n => match env.get n with
+    | some (.fileVar v) => some v.data
+    | _ => none
+  | .lit q => some (constLike shapeOf q)
+  | .neg a => (a.evalIn env shapeOf).map (Arr.mapCells (fun c => c.map (fun x => -x)))
+  | .mlt a q => (a.evalIn env shapeOf).map (Arr.mapCells (fun c => match c with
+      | some x => if x < q then none else some x
+      | none => none))
+  | .minv a => a.evalIn env shapeOf
+  | .bin op a b => match a.evalIn env shapeOf, b.evalIn env shapeOf with
+    | some x, some y => some (zipCells (fun a b => op.cell false a b) x y)
+    | _, _ => none
+
+/-- the variable a name means, if it means one -/
+def boundVar (env : Env) (n : String) : Option Var :=
+  match env.get n with
+  | some (.fileVar v) => some v
+  | _ => none
+
+def Expr.vars : Expr → List String
+  | .var n => [n]
+  | .lit _ => []
+  | .neg a => a.vars
+  | .mlt a _ => a.vars
+  | .minv a => a.vars
+  | .bin _ a b => a.vars ++ b.vars
+
+/-- the attributes of a variable made by `eval`: those of the first variable of the expression plus `expression` -/
+def evalAttrs (tv : Var) : List String := if tv.attrs.contains "expression" then tv.attrs else tv.attrs ++ ["expression"]
+
+/-- `f.eval('target = expr', inplace=True)` and `pncexpr('target = expr', f)`: every variable stays, a variable already
+called `target` is replaced, the new variable goes last -/
+def evalInto (env : Env) (f : File) (target : String) (e : Expr) : Except String File :=
+  match e.firstVar.bind (boundVar env) with
+  | none => .error "novar"
+  | some tv =>
+    match e.evalIn env tv.data with
+    | none => .error "KeyError"
+    | some dat => .ok { f with vars := f.vars.filter (fun v => v.name != target) ++
+        [{ tv with name := target, data := dat, attrs := evalAttrs tv, isInt := false }] }
+
+/-- `f.eval('target = expr')` (a new file): the declared coordinate variables and the new variable -/
+def evalNew (env : Env) (f : File) (coords : List String) (target : String) (e : Expr) : Except String File :=
+  match e.firstVar.bind (boundVar env) with
+  | none => .error "novar"
+  | some tv =>
+    match e.evalIn env tv.data with
+    | none => .error "KeyError"
+    | some dat => .ok { f with vars := f.vars.filter (fun v => coords.contains v.name && v.name != target) ++
+        [{ tv with name := target, data := dat, attrs := evalAttrs tv }] }
+
+/-- `f.variables[n] = f.variables[n] + q`: the variable replaced under its name by one derived from it -/
+def bumpVar (f : File) (n : String) (q : Rat) : File :=
+  { f with vars := f.vars.map (fun v => if v.name == n then
+      { v with data := Arr.mapCells (fun c => c.map (fun x => x + q)) v.data } else v) }
 
 /-! ### the remaining structural operations (C01) -/
 
@@ -599,6 +714,22 @@ def parseExpr : Nat → List String → Option (Expr × List String)
     | _, _ => none
   | _, _ => none
 
+/-- the steps of a chain: `bin@op` with the next file of the list, `mask@greater@q` / `mask@less@q` -/
+def runChain (coords : List String) : List File → File → List String → Except String File
+  | _, f, [] => .ok f
+  | others, f, tok :: rest =>
+    match tok.splitOn "@", others with
+    | ["bin", o], g :: more => match parseOp o with
+      | some op => do let r ← binopFile op f g coords; runChain coords more r rest
+      | none => .error "parse"
+    | ["mask", "greater", q], _ :: more => match parseRat q with
+      | some x => runChain coords more (maskFile f ⟨none, Arr.leaf none, some x, none, none, none, none⟩ coords false) rest
+      | none => .error "parse"
+    | ["mask", "less", q], _ :: more => match parseRat q with
+      | some x => runChain coords more (maskFile f ⟨none, Arr.leaf none, none, none, some x, none, none⟩ coords false) rest
+      | none => .error "parse"
+    | _, _ => .error "bad-op"
+
 def runC06 : List String → String
   | ["binop", op, coords, d1, v1, a1, d2, v2, a2] =>
     match parseOp op, parseFile d1 v1 a1, parseFile d2 v2 a2 with
@@ -613,36 +744,40 @@ def runC06 : List String → String
       let m : MaskSpec := ⟨wdims, unflatten none shape wcs, g, ge, l, le, e⟩
       showRes (.ok (maskFile f m (parseNames coords) (mc == "1")))
     | _, _, _, _, _, _, _ => "err parse"
-  | ["eval", target, expr, coords, d, v, a, ip] =>
-    -- `eval(..., inplace=True)`: every variable stays, an existing target is replaced by the new variable
+  | ["eval", target, expr, _coords, d, v, a, ip] =>
+    -- `eval(..., inplace=True)`
     match parseFile d v a, parseExpr 64 (expr.splitOn ",") with
-    | some f, some (e, []) =>
-      match e.firstVar.bind f.var? with
-      | none => "err novar"
-      | some tv =>
-        match e.eval f tv.data with
-        | none => "err KeyError"
-        | some dat =>
-          let attrs := if tv.attrs.contains "expression" then tv.attrs else tv.attrs ++ ["expression"]
-          let nv : Var := { tv with name := target, data := dat, attrs := attrs, isInt := false }
-          if ip == "1" then showRes (.ok { f with vars := f.vars.filter (fun v => v.name != target) ++ [nv] })
-          else "err bad-op"
+    | some f, some (e, []) => if ip == "1" then showRes (evalInto (evalEnv f) f target e) else "err bad-op"
     | _, _ => "err parse"
   | ["eval", target, expr, coords, d, v, a] =>
     match parseFile d v a, parseExpr 64 (expr.splitOn ",") with
-    | some f, some (e, []) =>
-      match e.firstVar.bind f.var? with
-      | none => "err novar"
-      | some tv =>
-        match e.eval f tv.data with
-        | none => "err KeyError"
-        | some dat =>
-          let cs := parseNames coords
-          let keep := f.vars.filter (fun v => cs.contains v.name && v.name != target)
-          let attrs := if tv.attrs.contains "expression" then tv.attrs else tv.attrs ++ ["expression"]
-          let nv : Var := { tv with name := target, data := dat, attrs := attrs }
-          showRes (.ok { f with vars := keep ++ [nv] })
+    | some f, some (e, []) => showRes (evalNew (evalEnv f) f (parseNames coords) target e)
     | _, _ => "err parse"
+  | ["pncexpr", target, expr, _coords, d, v, a, hs, cs] =>
+    -- `pncexpr(expr, ifile)`: the result is added to a wrapper around the whole file; `hs` / `cs`: the helper functions
+    -- and physical constants that exist under names of the file
+    match parseFile d v a, parseExpr 64 (expr.splitOn ",") with
+    | some f, some (e, []) => showRes (evalInto (pncexprEnv f (parseNames hs) (parseNames cs)) f target e)
+    | _, _ => "err parse"
+  | ["twice", how, n, d, v, a] =>
+    -- two `eval` calls on one file object; in between the variable is replaced under its name (by the first call itself
+    -- when both assign to it, by `f.variables[n] = f.variables[n] + 1` otherwise)
+    match parseFile d v a with
+    | some f =>
+      let e : Expr := .bin .mul (.var n) (.lit 2)
+      if how == "inplace" then
+        showRes (do let g ← evalInto (evalEnv f) f n e; evalInto (evalEnv g) g n e)
+      else
+        showRes (do
+          let g ← evalInto (evalEnv f) f "FIRST" e
+          let h := bumpVar g n 1
+          evalInto (evalEnv h) h "SECOND" e)
+    | none => "err parse"
+  | "chain" :: coords :: d0 :: v0 :: a0 :: d1 :: v1 :: a1 :: d2 :: v2 :: a2 :: steps =>
+    -- two operations in a row: arithmetic with the second / third file, `mask(greater=..)` / `mask(less=..)`
+    match parseFile d0 v0 a0, parseFile d1 v1 a1, parseFile d2 v2 a2 with
+    | some f0, some f1, some f2 => showRes (runChain (parseNames coords) [f1, f2] f0 steps)
+    | _, _, _ => "err parse"
   | _ => "err bad-op"
 
 /-- one operation of a C01 sequence -/
